@@ -41,22 +41,25 @@ type bounds struct {
 	histories    []string
 	// trees with more nodes run the histories other than "once" only with the all-functions
 	// factory, the full set and the singleton sets
-	fullHistoryUpTo int
-	tailFormNodes   int // bound of the family over the extended tail-call forms
-	callAgainBase   int // base-tree size of the call-again family
-	shapeAllUpTo    int // trees up to this size run every body shape; the next size one shape per tree
-	mixedAllUpTo    int // programs with up to this many modules run every factory / no-factory assignment per module
+	fullHistoryUpTo    int
+	tailFormNodes      int // bound of the family over the extended tail-call forms
+	callAgainBase      int // base-tree size of the call-again family
+	shapeAllUpTo       int // trees up to this size run every body shape; the next size one shape per tree
+	valsMaxP, valsMaxR int // typed-values family: bound on parameter / result count of the all-pairs part
+	valsFuncref        bool
+	mixedAllUpTo       int // programs with up to this many modules run every factory / no-factory assignment per module
 }
 
 func tierBounds(thorough bool) bounds {
 	b := bounds{maxNodes: 4, rotUpTo: 3, histories: []string{"once", "twice", "cache", "reopen", "other", "closedcm", "closedmid", "hostclose", "rtinst"}, fullHistoryUpTo: 3, tailFormNodes: 3, shapeAllUpTo: 2, callAgainBase: 3, mixedAllUpTo: 4,
-		chainPattern: []string{"d", "i", "dim", "dhr"}}
+		chainPattern: []string{"d", "i", "dim", "dhr"}, valsMaxP: 2, valsMaxR: 1}
 	for d := 1; d <= 40; d++ {
 		b.chainDepths = append(b.chainDepths, d)
 	}
 	if thorough {
 		b.maxNodes, b.rotUpTo, b.fullHistoryUpTo, b.tailFormNodes, b.shapeAllUpTo, b.callAgainBase = 5, 4, 4, 4, 3, 4
 		b.mixedAllUpTo = 6
+		b.valsMaxR, b.valsFuncref = 2, true
 	}
 	return b
 }
@@ -95,6 +98,9 @@ func buildUnits(b bounds) []unit {
 	for _, w := range [][2]int{{66, 0}, {70, 0}, {70, 2}, {130, 0}, {130, 1}} {
 		us = append(us, unit{Fam: "wide", Tree: fmt.Sprintf("wide:%d:%d", w[0], w[1])})
 	}
+	// typed values: every function type up to a length bound, every ordered pair of types with the same
+	// register-class shape, one module or two (vals.go)
+	us = append(us, valsUnits(b.valsMaxP, b.valsMaxR, b.valsFuncref)...)
 	// a function reached through two call sites (needed to see stale per-function listener state),
 	// run with every factory composition
 	for n := 2; n <= b.callAgainBase; n++ {
@@ -133,6 +139,7 @@ type caseID struct {
 	Mask    uint64    `json:"mask"`
 	All     bool      `json:"all"`
 	Wide    *wideCase `json:"wide,omitempty"`  // wide-module family (wide.go)
+	Vals    *valsCase `json:"vals,omitempty"`  // typed-values family (vals.go)
 	NoFac   uint64    `json:"nofac,omitempty"` // modules compiled without any factory (bit 0 env, bit l+1 m<l>)
 	Decoy   bool      `json:"decoy,omitempty"` // instantiate/call context carries a factory no compilation saw
 }
@@ -430,6 +437,9 @@ func runUnit(u unit, b bounds) (res unitResult) {
 	if u.Fam == "wide" {
 		return runWideUnit(u)
 	}
+	if u.Fam == "vals" {
+		return runValsUnit(u)
+	}
 	res.Outcomes = map[string]int64{}
 	t, err := ParseTree(u.Tree)
 	if err != nil {
@@ -708,7 +718,7 @@ func main() {
 	outcomes := fw.NewCounter()
 	samples := fw.NewSampler(16)
 	var evals, distinct int64
-	var nTree, nChain, nWide, skipped int64
+	var nTree, nChain, nWide, nVals, skipped int64
 	var pending []pendingVerdict
 	t0 := time.Now()
 	done := fw.Supervise(fw.SupOpts{N: len(units), Workers: runtime.NumCPU(), CaseTimeout: 300 * time.Second, Mode: run.Tier,
@@ -743,6 +753,8 @@ func main() {
 				nTree++
 			case "chain":
 				nChain++
+			case "vals":
+				nVals++
 			default:
 				nWide++
 			}
@@ -776,11 +788,11 @@ func main() {
 		Evaluations: evals, DistinctNontriv: distinct,
 		Rule:    "evaluation = one execution of a generated program on one engine under one compilation history with one listener set (or none); distinct non-trivial = distinct (tree, signature rotation, start-variant, listener set) whose reference event stream is non-empty, counted once across engines and histories; mixed configurations count as (tree, rotation, start-variant, listener set, modules without factory) with a non-empty reference stream",
 		Samples: samples.List(), Exhaustive: true, Outcomes: outcomes.Map(),
-		Bounds: map[string]any{"max_nodes": b.maxNodes, "edge_kinds": "d,i,m,h,t,r", "wide_modules": "66, 70 (0 and 2 imports), 130 (0 and 1 import) local functions; run calls the locals at 0,1,31,32,62,63,64,65,66,127,128,129 that exist; (S1,S2) = same set (control), differing in exactly one of those indexes (both directions), in two indexes 64 apart, and high-only sets; histories twice and cache; both engines", "factory_compositions": fmt.Sprintf("single; Multi(set,set); Multi(every function,set); Multi(set,nil,set); Multi(FunctionListenerFunc adapter,set) - on the call-again family (base trees with <= %d nodes + a second call site of an earlier function; sets: all-functions, full, the twice-called function) and on the chains whose length is a multiple of 4 (all-functions factory); history once", b.callAgainBase), "body_shapes": fmt.Sprintf("%d (exit form x surplus operands) combinations x 4 signature rotations on every tree with <= %d nodes, one combination per tree with %d nodes; history once", numShapeCombos, b.shapeAllUpTo, b.shapeAllUpTo+1), "tail_form_family": fmt.Sprintf("edge kinds d,i,m,h,t,u,v,w,r; trees with <= %d nodes using u, v or w", b.tailFormNodes), "mixed_factories": fmt.Sprintf("per module (env, m0, m1, ...) compiled with its own factory object or with a context without any factory: every assignment except all-with / all-without for programs with <= %d modules, else {entry module, all but the entry module, even, odd positions of the import chain, env, all guest modules} without; on every plain and tail-form tree (all listener sets up to %d nodes, above: all-functions factory and full set) and every chain (all-functions factory); history once, plus once with a decoy factory in the instantiate/call context (all-functions factory), plus rtinst (trees up to %d nodes with the all-functions factory / full set, chains of length 8k)", b.mixedAllUpTo, b.fullHistoryUpTo, b.fullHistoryUpTo),
+		Bounds: map[string]any{"max_nodes": b.maxNodes, "typed_values": fmt.Sprintf("every function type over {i32,i64,externref%s | f32,f64 | v128} with <= %d params and <= %d results; every ordered pair (A,B) of such types with the same register class at every position, A compiled before B, as two functions of one module and as two modules of one runtime; long sub-family: 12 params and 12 results over the class patterns %v, pairs over {all narrow, all wide, exactly one param or result position widened (i64/externref/funcref by position, f64)} in both orders; every function called from Go and from a guest wrapper, twice, with values whose halves are non-zero and bits 31/63 set; both engines", map[bool]string{true: ",funcref", false: ""}[b.valsFuncref], b.valsMaxP, b.valsMaxR, valsLongPatterns), "edge_kinds": "d,i,m,h,t,r", "wide_modules": "66, 70 (0 and 2 imports), 130 (0 and 1 import) local functions; run calls the locals at 0,1,31,32,62,63,64,65,66,127,128,129 that exist; (S1,S2) = same set (control), differing in exactly one of those indexes (both directions), in two indexes 64 apart, and high-only sets; histories twice and cache; both engines", "factory_compositions": fmt.Sprintf("single; Multi(set,set); Multi(every function,set); Multi(set,nil,set); Multi(FunctionListenerFunc adapter,set) - on the call-again family (base trees with <= %d nodes + a second call site of an earlier function; sets: all-functions, full, the twice-called function) and on the chains whose length is a multiple of 4 (all-functions factory); history once", b.callAgainBase), "body_shapes": fmt.Sprintf("%d (exit form x surplus operands) combinations x 4 signature rotations on every tree with <= %d nodes, one combination per tree with %d nodes; history once", numShapeCombos, b.shapeAllUpTo, b.shapeAllUpTo+1), "tail_form_family": fmt.Sprintf("edge kinds d,i,m,h,t,u,v,w,r; trees with <= %d nodes using u, v or w", b.tailFormNodes), "mixed_factories": fmt.Sprintf("per module (env, m0, m1, ...) compiled with its own factory object or with a context without any factory: every assignment except all-with / all-without for programs with <= %d modules, else {entry module, all but the entry module, even, odd positions of the import chain, env, all guest modules} without; on every plain and tail-form tree (all listener sets up to %d nodes, above: all-functions factory and full set) and every chain (all-functions factory); history once, plus once with a decoy factory in the instantiate/call context (all-functions factory), plus rtinst (trees up to %d nodes with the all-functions factory / full set, chains of length 8k)", b.mixedAllUpTo, b.fullHistoryUpTo, b.fullHistoryUpTo),
 			"outcomes": "R,T,P,E,S", "signature_rotations_up_to_nodes": b.rotUpTo,
 			"chain_depths": "1..40", "chain_patterns": b.chainPattern, "chain_leaves": "R,T,P,E", "histories": b.histories, "all_listener_sets_under_every_history_up_to_nodes": b.fullHistoryUpTo, "engines": []string{"interpreter", "compiler"},
 			"listener_sets": "every subset of the nodes + all-functions factory (trees); full/even/odd/root/leaf/all-functions (chains)"},
-		Extra: map[string]any{"units": len(units), "units_done": int64(done) - skipped, "tree_units": nTree, "chain_units": nChain, "wide_module_units": nWide, "units_by_size": byN, "explore_wall_s": time.Since(t0).Seconds(), "unrepeatable_mismatches": unrepeatable},
+		Extra: map[string]any{"units": len(units), "units_done": int64(done) - skipped, "tree_units": nTree, "chain_units": nChain, "wide_module_units": nWide, "typed_values_units": nVals, "units_by_size": byN, "explore_wall_s": time.Since(t0).Seconds(), "unrepeatable_mismatches": unrepeatable},
 	}, []string{
 		"the stack iterator is expected to list the frames of the current api.Function.Call only (a host function that re-enters the guest starts a new call boundary), on both engines",
 		"values are compared after masking to the value type's width (upper bits of 32-bit slots are not part of the value)",
@@ -886,6 +898,29 @@ func confirmIntermittent(run *fw.Run, units []unit, pending []pendingVerdict) []
 // ---------------------------------------------------------------- replay / show
 
 func runOne(id caseID, verbose bool) []viol {
+	if id.Vals != nil {
+		var all []viol
+		engines := []string{id.Engine}
+		if id.Engine == "both" || id.Engine == "" {
+			engines = []string{"interpreter", "compiler"}
+		}
+		for _, eng := range engines {
+			if verbose {
+				fmt.Printf("typed-values case %+v engine %s\n", *id.Vals, eng)
+			}
+			vs := judgeVals(eng, *id.Vals, verbose)
+			if verbose {
+				for _, w := range vs {
+					fmt.Printf("  FAIL %s: %s\n", w.Sig, w.What)
+				}
+				if len(vs) == 0 {
+					fmt.Println("  holds")
+				}
+			}
+			all = append(all, vs...)
+		}
+		return all
+	}
 	if id.Wide != nil {
 		var all []viol
 		engines := []string{id.Engine}
